@@ -9,6 +9,12 @@ pub fn hex(b: &[u8]) -> String {
     s
 }
 
+/// Bit pattern of a double for observations; all NaNs are one value in the
+/// model (spec_float has a single NaN), so their payload and sign are dropped.
+pub fn fbits(f: f64) -> u64 {
+    if f.is_nan() { 0x7ff8_0000_0000_0000 } else { f.to_bits() }
+}
+
 pub fn unhex(s: &str) -> Vec<u8> {
     (0..s.len() / 2)
         .map(|i| u8::from_str_radix(&s[2 * i..2 * i + 2], 16).unwrap())
@@ -23,7 +29,7 @@ fn enc_number(n: &Number, with_ryu: bool, out: &mut String) {
         out.push_str(&format!("I-{}", (i as i128).unsigned_abs()));
     } else {
         let f = n.as_f64().unwrap();
-        out.push_str(&format!("D{:016x}", f.to_bits()));
+        out.push_str(&format!("D{:016x}", fbits(f)));
         if with_ryu {
             let mut b = ryu::Buffer::new();
             out.push(':');
